@@ -165,6 +165,15 @@ Lemma layers_functional s e1 e2 :
   In e1 (attrs_layers s) -> In e2 (attrs_layers s) -> fst e1 = fst e2 -> snd e1 = snd e2.
 Proof. intros H1 H2. apply shape_functional; now apply (layers_shape s). Qed.
 
+(** Within one class a name is bound to one helper: distinct (role, field) pairs get distinct
+    names.  [snippets s] is a function of the class specification alone - no earlier class, and
+    no earlier use of a shared helper object, enters. *)
+Lemma class_helper_names_functional_l s e1 e2 :
+  In e1 (snippets s) -> In e2 (snippets s) -> fst e1 = fst e2 -> snd e1 = snd e2.
+Proof.
+  intros H1 H2. apply layers_functional with (s := s); unfold attrs_layers; apply in_or_app; now right.
+Qed.
+
 (** ** Every free name is registered by attrs (no guard needed) *)
 
 Lemma in_pinned_layers s n : In n pinned_builtins -> In (fx n) (attrs_layers s).
